@@ -29,7 +29,9 @@ TCor == /\ Ev.a = "cor"
            /\ t.d.out = Ev.d /\ Scal(t) = Ev.w /\ ~t.bad /\ Ev.used = t.rd - s.rd
            /\ s' = t /\ acc' = acc \o t.d.out
         /\ UNCHANGED <<sl, maxl>>
-TEnd == /\ Ev.a = "end" /\ IsSuffix(Ev.sent, acc) /\ UNCHANGED <<sl, maxl, acc, s>>
+NormF(fr) == [i \in 1..Len(fr) |-> [pts |-> <<fr[i].pts[1] % 8, fr[i].pts[2]>>,
+                                      lines |-> [j \in 1..Len(fr[i].lines) |-> NormLine(fr[i].lines[j])]]]
+TEnd == /\ Ev.a = "end" /\ IsSuffix(NormF(Ev.sent), NormF(acc)) /\ UNCHANGED <<sl, maxl, acc, s>>
 
 TNext == l <= Len(Log) /\ l' = l + 1 /\ (TStream \/ TOpen \/ TZero \/ TFeed \/ TCor \/ TEnd)
 TInit == l = 1 /\ sl = 1 /\ maxl = 64 /\ acc = <<>> /\ s = S0(FALSE, TRUE, 0)
